@@ -23,6 +23,12 @@ Aliasing(t1, m1, t2, m2) == t1 = t2 /\ (m1 = "mut" \/ m2 = "mut")
 
 PairCases(fam) == {[fam |-> fam, k1 |-> k1, k2 |-> k2, same |-> s, api |-> "-", payload |-> "-"] :
                      k1 \in Kinds, k2 \in Kinds, s \in BOOLEAN}
+(* the same pairs with an entity::Identifier view written before / after the component views of the
+   iterator view list (api carries the placement): the verdict must not depend on where a
+   non-component view is written *)
+Placements == {"id_first", "id_last", "id_mid"}
+PlacedCases(fam) == {[fam |-> fam, k1 |-> k1, k2 |-> k2, same |-> s, api |-> pl, payload |-> "-"] :
+                     k1 \in Kinds, k2 \in Kinds, s \in BOOLEAN, pl \in Placements}
 ResCases == {[fam |-> "rr", k1 |-> k1, k2 |-> k2, same |-> s, api |-> "-", payload |-> "-"] :
                k1 \in {"ref", "mut"}, k2 \in {"ref", "mut"}, s \in BOOLEAN}
 RepCases == {[fam |-> "rep", k1 |-> k1, k2 |-> k2, same |-> s, api |-> a, payload |-> "-"] :
@@ -41,6 +47,7 @@ QResCases == {[fam |-> "qr", k1 |-> k1, k2 |-> k2, same |-> s, api |-> "-", payl
 SubCases == {[fam |-> "sub", k1 |-> k1, k2 |-> k2, same |-> TRUE, api |-> "-", payload |-> "-"] :
                k1 \in Kinds, k2 \in Kinds}
 Cases == PairCases("vv") \cup PairCases("ve") \cup PairCases("ee") \cup PairCases("pv") \cup PairCases("sv")
+         \cup PlacedCases("vv") \cup PlacedCases("ve") \cup PlacedCases("pv") \cup PlacedCases("sv")
          \cup ResCases \cup QResCases \cup SubCases \cup RepCases \cup OutCases \cup ThrCases
 
 (* how the payload is reached from the other thread by each API *)
